@@ -1,5 +1,5 @@
 \* quick: every day up to 2400-12-31, the year boundaries / leap-day neighbourhood of every year 1970..9999, every second
-\* of 2000-02-29, every n < 10^5 for each function, boundary lists, seeded random batches
+\* of 2000-02-29 and of 9999-12-31, every n < 10^5 for each function, boundary lists, seeded random batches
 SPECIFICATION GSpec
 CONSTANTS
   LastDay = 2932896
@@ -11,9 +11,10 @@ CONSTANTS
   NumLane = 1
   Batch = 2000
   DaysTo = 157419
+  DayPasses = 1
   YearsFrom = 1970
   YearsTo = 9999
-  SecDays = {11016}
+  SecDays = {11016, 2932896}
   NumTo = 99999
   RandTs = 10
   RandNum = 5
